@@ -178,7 +178,7 @@ def run_job(job):
                 return {} if kn else {"stop": True}
             if out.get("got") is not None:
                 sg = evaltree(m, out["got"])
-                if not common.obs_equal(sg, v["got"], strict_exc=False):
+                if not common.obs_equal(sg, v["got"], strict_exc=False, float_eq=True):
                     res["inconclusive"].append(dict(reason="shim-mismatch", case=case, sym_got=sg, real_got=v["got"]))
                     return {"stop": True}
                 if isinstance(sg, dict) and sg.get("k") == "raise" and sg.get("exc") != v["got"].get("exc"):
